@@ -53,7 +53,7 @@ func typeName(t types.Type) string {
 
 // CalleeName gives the resolved name of the callee of a call:
 // "bytes.Equal", "(*certurl.AugmentedCertificate).CertSha256",
-// "invoke:signingalgorithm.Verifier.Verify", "builtin:len", "dynamic".
+// "invoke:signingalgorithm.Verifier.Verify", "builtin:len", "dyn:<provenance of the function value>".
 func CalleeName(c *ssa.CallCommon) string {
 	if c.IsInvoke() {
 		return "invoke:" + typeName(c.Value.Type()) + "." + c.Method.Name()
@@ -68,7 +68,7 @@ func CalleeName(c *ssa.CallCommon) string {
 			return FuncString(fn)
 		}
 	}
-	return "dynamic"
+	return "dyn:" + Of(c.Value)
 }
 
 // FuncString names a function with a short package qualifier.
@@ -158,7 +158,7 @@ func render(v ssa.Value, d int, onstack map[ssa.Value]bool) string {
 			sort.Strings(vals)
 			return "phi(" + strings.Join(vals, "|") + ")"
 		}
-		return "alloc:" + typeName(deref(x.Type()))
+		return allocName(x)
 	case *ssa.FieldAddr:
 		st := deref(x.X.Type()).Underlying().(*types.Struct)
 		return r(x.X) + "." + st.Field(x.Field).Name()
@@ -300,8 +300,8 @@ func callString(c *ssa.CallCommon, r func(ssa.Value) string) string {
 	if strings.HasPrefix(name, "builtin:") {
 		return strings.TrimPrefix(name, "builtin:") + "(" + strings.Join(args, ",") + ")"
 	}
-	if name == "dynamic" {
-		return "calldyn:" + r(c.Value) + "(" + strings.Join(args, ",") + ")"
+	if strings.HasPrefix(name, "dyn:") {
+		return "dyn:" + r(c.Value) + "(" + strings.Join(args, ",") + ")"
 	}
 	if c.IsInvoke() {
 		return name + "(" + strings.Join(args, ",") + ")"
@@ -335,4 +335,15 @@ func Match(pattern, term string) bool {
 		term = term[j+len(parts[i]):]
 	}
 	return strings.HasSuffix(term, parts[len(parts)-1])
+}
+
+// allocName names an allocation that is not a simple spilled value: a named
+// local ("local:buf") or an anonymous literal ("alloc:TYPE").
+func allocName(x *ssa.Alloc) string {
+	c := x.Comment
+	switch c {
+	case "", "complit", "varargs", "new", "slicelit", "makeslice":
+		return "alloc:" + typeName(deref(x.Type()))
+	}
+	return "local:" + c
 }
